@@ -264,6 +264,9 @@ func RuleDDaysBeforeBuild(c *core.Ctx) {
 							found = true
 						}
 					}
+					if !found && registeredByHelper(p, b, pv, rq.accessor, daysFn, build) {
+						found = true
+					}
 					if found {
 						c.Ob(rule, key, ins.Pos(), core.FuncName(fn), core.Discharged,
 							fmt.Sprintf("%s asks the builder for %s(partition) after Build(); the same dates were registered with b.Days before Build()", core.FuncName(callee), rq.accessor.Name()))
@@ -286,4 +289,111 @@ func RuleDDaysBeforeBuild(c *core.Ctx) {
 	}
 	c.Note("%s: %d functions request days from a builder parameter; %d post-Build requests examined", rule, n, summaries)
 	c.Floor(rule, 1)
+}
+
+
+// registeredByHelper: the builder b and the partition pv are two fields of one
+// struct returned by a module helper H (called before build), and inside H the
+// call  jField.Days(accessor(pField))  on the very values stored into those
+// fields dominates the return: the dates are registered by the time H returns.
+func registeredByHelper(p *core.Prog, b, pv ssa.Value, accessor *ssa.Function, daysFn *ssa.Function, build *ssa.Call) bool {
+	fieldOf := func(v ssa.Value) (ssa.Value, int, bool) {
+		switch x := v.(type) {
+		case *ssa.UnOp:
+			if fa, ok := x.X.(*ssa.FieldAddr); ok && x.Op == token.MUL {
+				return fa.X, fa.Field, true
+			}
+		case *ssa.Field:
+			return x.X, x.Field, true
+		}
+		return nil, 0, false
+	}
+	bx, bf, ok1 := fieldOf(b)
+	px, pf, ok2 := fieldOf(pv)
+	if !ok1 || !ok2 || !p.SameExpr(bx, px) {
+		return false
+	}
+	// the struct: (extracted) result of a call
+	var hc *ssa.Call
+	switch x := core.Strip(bx).(type) {
+	case *ssa.Extract:
+		hc, _ = x.Tuple.(*ssa.Call)
+	case *ssa.Call:
+		hc = x
+	}
+	if hc == nil || !core.Dominates(hc, build) {
+		return false
+	}
+	h := hc.Call.StaticCallee()
+	if h == nil || h.Blocks == nil || !p.InModule(h) {
+		return false
+	}
+	ok := false
+	core.EachInstr(h, func(ins ssa.Instruction) {
+		ret, isRet := ins.(*ssa.Return)
+		if !isRet || len(ret.Results) == 0 {
+			return
+		}
+		// success return: the struct is a non-nil allocation
+		al, isAlloc := core.Strip(ret.Results[0]).(*ssa.Alloc)
+		if !isAlloc || al.Referrers() == nil {
+			return
+		}
+		var j0, p0 ssa.Value
+		for _, r := range *al.Referrers() {
+			fa, isFA := r.(*ssa.FieldAddr)
+			if !isFA {
+				continue
+			}
+			for _, st := range core.StoresTo(fa) {
+				if fa.Field == bf {
+					j0 = st.Val
+				}
+				if fa.Field == pf {
+					p0 = st.Val
+				}
+			}
+		}
+		if j0 == nil || p0 == nil {
+			return
+		}
+		core.EachInstr(h, func(i2 ssa.Instruction) {
+			call, isCall := i2.(*ssa.Call)
+			if !isCall || call.Call.StaticCallee() != daysFn || !p.SameExpr(call.Call.Args[0], j0) {
+				return
+			}
+			acc, isAcc := call.Call.Args[1].(*ssa.Call)
+			if !isAcc || acc.Call.StaticCallee() != accessor || len(acc.Call.Args) < 1 {
+				return
+			}
+			if (p.SameExpr(acc.Call.Args[0], p0) || sameLoadedValue(p, acc.Call.Args[0], p0)) && core.Dominates(call, ret) {
+				ok = true
+			}
+		})
+	})
+	return ok
+}
+
+// sameLoadedValue: a and b are loads of the same local variable (a struct
+// value spilled for a method call and the value stored into a field).
+func sameLoadedValue(p *core.Prog, a, b ssa.Value) bool {
+	la, ok1 := a.(*ssa.UnOp)
+	lb, ok2 := b.(*ssa.UnOp)
+	if ok1 && ok2 && la.Op == token.MUL && lb.Op == token.MUL {
+		return p.SameExpr(la.X, lb.X)
+	}
+	// one is the value, the other a load of a cell that was assigned that value once
+	check := func(ld ssa.Value, v ssa.Value) bool {
+		u, ok := ld.(*ssa.UnOp)
+		if !ok || u.Op != token.MUL {
+			return false
+		}
+		al, ok := u.X.(*ssa.Alloc)
+		if !ok {
+			return false
+		}
+		sts := core.AllStoresToCell(al)
+		return len(sts) == 1 && (sts[0].Val == v || p.SameExpr(sts[0].Val, v))
+	}
+	return check(a, b) || check(b, a)
 }
